@@ -52,6 +52,10 @@ func ringDegScenario(rt ring.Type, logN int, ch rk.Chain, bound int) engine.Scen
 		c.Cover("ring", ringName(rt))
 		uni.Seed(c, name, cfg)
 		known := knownKS(pL, kp, level)
+		if known != "" {
+			c.Skip(skipKnown)
+			return
+		}
 		sig := func(clause string) string {
 			if known != "" {
 				return known
@@ -159,6 +163,10 @@ func bridgeScenario(ch rk.Chain, bound int) engine.Scenario {
 		c.Cover("op", "DomainSwitcher."+dirName)
 		uni.Seed(c, name, cfg)
 		known := knownKS(pStd.Parameters, kp, level)
+		if known != "" {
+			c.Skip(skipKnown)
+			return
+		}
 		sig := func(clause string) string {
 			if known != "" {
 				return known
